@@ -7,9 +7,10 @@ import Driver.Deferred
 import Driver.Trigger
 import Driver.TripWire
 import Driver.SOH
+import Driver.DObj
 open Driver
 
-def comps : List Comp := [LatchD.comp, LockFamD.comp, BarrierD.comp, DeferredD.comp, TripWireD.comp, SOHD.comp, SOHD.compNoTap, TriggerD.comp, DDD.comp]
+def comps : List Comp := [LatchD.comp, LockFamD.comp, BarrierD.comp, DeferredD.comp, TripWireD.comp, SOHD.comp, SOHD.compNoTap, TriggerD.comp, DDD.comp, DObjD.comp]
 
 def main (args : List String) : IO UInt32 := do
   match args with
